@@ -40,6 +40,8 @@ type call struct {
 	live func() (o outs, returned map[string][]byte, passed []byte)
 	// fresh builds the same input again with slices of its own
 	fresh func() call
+	// onSlice builds the call that passes b itself (the input is what b holds now)
+	onSlice func(b []byte) call
 }
 
 // scribble overwrites a slice in place (every byte changes): what a caller that owns the slice may do
@@ -100,6 +102,13 @@ func bytesCall(arg []byte, seed uint32, plen int) call {
 		},
 	}
 	c.live = func() (outs, map[string][]byte, []byte) { return c.eval(), nil, arg }
+	c.onSlice = func(b []byte) call {
+		p := plen
+		if p > len(b) {
+			p = len(b)
+		}
+		return bytesCall(b, seed, p)
+	}
 	return c
 }
 
@@ -198,7 +207,12 @@ func bitCall(half int, hi, lo uint32, src uint64) call {
 }
 
 func ipCall(a uint32) call {
-	addr := []byte{byte(a >> 24), byte(a >> 16), byte(a >> 8), byte(a)}
+	return ipCallOn([]byte{byte(a >> 24), byte(a >> 16), byte(a >> 8), byte(a)})
+}
+
+// ipCallOn: the address is what the 4-byte slice addr holds now; addr itself is passed to golib
+func ipCallOn(addr []byte) call {
+	a := uint32(addr[0])<<24 | uint32(addr[1])<<16 | uint32(addr[2])<<8 | uint32(addr[3])
 	pristine := core.Cp(addr)
 	// every slice golib returns is the caller's: after projecting it the harness overwrites it
 	// (keep: hands it over untouched instead)
@@ -231,9 +245,10 @@ func ipCall(a uint32) call {
 				"parsed": core.Cp(refIpParse(t)), "int": core.Cp(pristine), "frint": core.Cp(pristine)}
 		},
 		key: fmt.Sprintf("ip:%x", a), nontriv: true,
-		intact: func() bool { return bytes.Equal(addr, pristine) },
-		live:   func() (outs, map[string][]byte, []byte) { o, h := do(true); return o, h, addr },
-		fresh:  func() call { return ipCall(a) },
+		intact:  func() bool { return bytes.Equal(addr, pristine) },
+		live:    func() (outs, map[string][]byte, []byte) { o, h := do(true); return o, h, addr },
+		fresh:   func() call { return ipCall(a) },
+		onSlice: ipCallOn,
 	}
 }
 
@@ -630,7 +645,7 @@ func Run(c *core.Ctx) error {
 	tSweep := shards("sweep", 1)
 	tAlias := shards("alias", c.Pick(1, 2))
 	tChurn := shards("churn", c.Pick(1, 2))
-	nConc := c.Pick(2, 6)
+	nConc := c.Pick(3, 8)
 	tConc := shards("conc", nConc)
 	nAlias := c.Pick(6, 24)
 
@@ -664,7 +679,9 @@ func Run(c *core.Ctx) error {
 	}
 	for cas := 0; cas < nConc; cas++ {
 		if c.Want("conc", cas) {
-			runConc(c, tConc[cas], "conc", cas, concInputs(c, "conc", cas), c.Pick(100, 150))
+			// the last case (thorough: the last two): inputs with short evaluations only
+			small := cas >= nConc-c.Pick(1, 2)
+			runConc(c, tConc[cas], "conc", cas, concInputs(c, "conc", cas, small), c.Pick(100, 150))
 		}
 	}
 	// quick: one of the two cases (by the seed), thorough: both
